@@ -18,7 +18,10 @@ TRIGGERS = [('less and except', 'less_except', 'less and except'), ('Less & Exce
             ('wellbore', 'well', 'wellbore'), ('well bore', 'well', 'well'), ('the Johnston #1 well', 'well', 'well'), ('from the top of the', 'depth', 'top'),
             # the same wording with blanks and letters that only Unicode-aware `\s` / IGNORECASE accept: no-break and thin spaces, long s, dotted capital I
             ('in\u00a0so\u00a0far as', 'insofar', 'far'), ('only in\u2009so far as', 'insofar', 'far'), ('in\u017fofar as', 'insofar', 'ofar'),
-            ('\u0130NSOFAR AS', 'insofar', 'nsofar'), ('le\u017fs and except', 'less_except', 'and except')]
+            ('\u0130NSOFAR AS', 'insofar', 'nsofar'), ('le\u017fs and except', 'less_except', 'and except'),
+            # inflected and compound forms of the trigger words (the patterns match inside a word)
+            ('limited to the Three Forks formations', 'depth', 'formations'), ('subsurface rights only', 'depth', 'subsurface'), ('all surfaces excluded', 'depth', 'surfaces'),
+            ('excepted therefrom', 'less_except', 'except')]
 
 
 def typed_ok(obj):
